@@ -122,6 +122,13 @@ def integrate_spin(expr: Expr, target_idx: str, target_spin: str) -> Expr:
     if expr.provided_target_idx is not None:  # set target indices if necessary
         result.set_target_idx(result_target)
 
+    # expand sums in products (polynoms): the allowed spin blocks of the
+    # tensors within a polynom are not considered below, i.e., the spin
+    # forbidden blocks of these tensors would be part of the result.
+    # (the contributions are expanded by simplify below anyway)
+    # Build a new container to not modify the input expression.
+    expr = Expr(expr.sympy.expand(), **expr.assumptions)
+
     for term in expr.terms:
         # - ensure that the term has matching target indices
         if term.target != sorted_target:
